@@ -396,7 +396,7 @@ def gen_graph_specs(ctx):
         rng.shuffle(order)
         specs.append(('dag4', mk('opt', pl, order)))
     # random: 4..6 nodes, cyclic or not, any listing order, real-looking uids now and then
-    n_rand = ctx.budget(900, 12000)
+    n_rand = ctx.budget(700, 12000)
     for _ in range(n_rand):
         n = rng.choice([4, 4, 4, 5, 5, 6])
         dag = rng.random() < 0.5
